@@ -753,8 +753,6 @@ Section Resign.
         rewrite (sign_eps_erase a1 (set_ext a1 (Some (Ext (map erase_psig (x_providers x)) (x_override x))))
                    x (Ext (map erase_psig (x_providers x)) (x_override x)) k fetch) by reflexivity.
         destruct (sign_eps pub sign H _ _ k fetch (map erase_psig (x_providers x))) as [ps'| |]; cbn [bind]; try reflexivity.
-        assert (E : existsb (is_main a1) ps' = existsb (is_main (set_ext a1 (Some (Ext (map erase_psig (x_providers x)) (x_override x))))) ps') by reflexivity.
-        rewrite <- E. destruct (negb _ && negb _)%bool; reflexivity.
       + destruct a1; cbn in *. subst. reflexivity.
   Qed.
 
